@@ -330,7 +330,9 @@ def region_variants(region):
         out.append(("line(ring)", GM.line(poly.exterior.points, region.crs)))
         return out
     t = region.geom_type
-    if t == "Polygon":
+    if t in ("MultiPolygon", "MultiLineString", "GeometryCollection"):
+        out.append(("multipoint(all vertices)", GM.multipoint(input_vertices(region), region.crs)))
+    elif t == "Polygon":
         pts = region.exterior.points
         out.append(("line(ring)", GM.line(pts, region.crs)))
         out.append(("multipoint(vertices)", GM.multipoint(pts[:-1], region.crs)))
@@ -375,25 +377,87 @@ def region_from(d):
     return Geometry(_wkt.loads(d["wkt"]), d["crs"])
 
 
-def region_vertices_in(region, crs):
-    """vertices of the region's own polygon / geometry, re-projected by pyproj exactly as Geometry.to_crs does"""
+# invalid-but-meaningful regions on the unit square (u, v): list of polygons, each a list of rings (shell first).
+# Coordinates are multiples of 1/8 so that the exact stream can place them on dyadic pixel positions.
+WEIRD_REGIONS = {
+    "bowtie": [[[(0, 0), (1, 1), (1, 0), (0, 1)]]],                                   # self-crossing quad
+    "zigzag-8": [[[(0, 0), (1, .5), (0, 1), (1, 1), (0, .5), (1, 0)]]],                # crosses itself twice
+    "self-touch": [[[(0, 0), (1, 0), (.5, .5), (1, 1), (0, 1), (.5, .5)]]],            # ring touches itself at a vertex
+    "dup-vertices": [[[(0, 0), (0, 0), (1, 0), (1, 1), (1, 1), (0, 1)]]],              # repeated consecutive vertices
+    "clockwise": [[[(0, 0), (0, 1), (1, 1), (1, 0)]]],                                 # wrong winding order
+    "spike": [[[(0, 0), (1, 0), (1, 1), (.5, 1), (.5, .25), (.5, 1), (0, 1)]]],        # zero-width spike
+    "zero-area": [[[(0, 0), (.5, .5), (1, 1)]]],                                       # collinear ring
+    "hole-touching-shell": [[[(0, 0), (1, 0), (1, 1), (0, 1)], [(0, 0), (.625, .25), (.25, .625)]]],
+    "hole-same-winding": [[[(0, 0), (1, 0), (1, 1), (0, 1)], [(.25, .25), (.75, .25), (.75, .75), (.25, .75)]]],
+    "mpoly-overlap": [[[(0, 0), (.75, 0), (.75, .75), (0, .75)]], [[(.25, .25), (1, .25), (1, 1), (.25, 1)]]],
+    "mpoly-nested": [[[(0, 0), (1, 0), (1, 1), (0, 1)]], [[(.25, .25), (.5, .25), (.5, .5), (.25, .5)]]],
+    "mpoly-bowtie": [[[(0, 0), (.5, .5), (.5, 0), (0, .5)]], [[(.5, .5), (1, 1), (1, .5), (.5, 1)]]],
+}
+
+
+def build_weird_region(name, P, crs):
+    """the region `name` of WEIRD_REGIONS with (u, v) mapped through P -> (Geometry, all its input vertices)"""
+    from odc.geo import geom as GM
+
+    polys = [[[P(u, v) for u, v in ring] for ring in poly] for poly in WEIRD_REGIONS[name]]
+    verts = [q for poly in polys for ring in poly for q in ring]
+    closed = [[ring + [ring[0]] for ring in poly] for poly in polys]
+    if len(closed) == 1:
+        region = GM.polygon(closed[0][0], crs, *closed[0][1:])
+    else:
+        region = GM.multipolygon(closed, crs)
+    return region, verts
+
+
+def input_vertices(region):
+    """every coordinate of the region as given (no shapely validity, no odc-geo code): BoundingBox -> 4 corners"""
+    import shapely
     from odc.geo.geom import BoundingBox
 
-    gg = region.polygon if isinstance(region, BoundingBox) else region
-    gg = gg.to_crs(crs)
-    return [tuple(c[:2]) for c in _all_coords(gg)]
+    if isinstance(region, BoundingBox):
+        l, b, r, t = region.bbox
+        return [(l, b), (l, t), (r, b), (r, t)]
+    return [tuple(map(float, c)) for c in shapely.get_coordinates(region.geom)]
 
 
-def _all_coords(gg):
-    t = gg.geom_type
-    if t == "Polygon":
-        return list(gg.exterior.points)
-    if t.startswith("Multi") or t == "GeometryCollection":
-        out = []
-        for sub in gg.geoms:
-            out += _all_coords(sub)
-        return out
-    return list(gg.points)
+_TR_CACHE = {}
+
+
+def region_vertices_in(region, crs):
+    """every input vertex of the region, taken to `crs` point by point with a FRESH pyproj transformer (trusted):
+    independent of Geometry.to_crs / shapely validity handling.  Curved-edge bulge (K3) does not affect vertices."""
+    import pyproj
+
+    verts = input_vertices(region)
+    if region.crs == crs:
+        return verts
+    k = (str(region.crs), str(crs))
+    if k not in _TR_CACHE:
+        _TR_CACHE[k] = pyproj.Transformer.from_crs(pyproj.CRS.from_user_input(k[0]), pyproj.CRS.from_user_input(k[1]),
+                                                   always_xy=True)
+    tr = _TR_CACHE[k]
+    out = []
+    for x, y in verts:
+        X, Y = tr.transform(x, y)
+        out.append((float(X), float(Y)))
+    return out
+
+
+def chk_project_vertexwise(g, region, slack=Fr(1, 10**6)):
+    """GeoBox.project(region) maps the region vertex by vertex: same number of coordinates, each at the pixel
+    position of the corresponding input vertex (nothing dropped, merged or 'repaired')"""
+    import shapely
+
+    pp = g.project(region)
+    got = [tuple(map(float, c)) for c in shapely.get_coordinates(pp.geom)]
+    inv = fa_inv(fa(g.affine))
+    want = [fa_apply(inv, (Fr(x), Fr(y))) for x, y in region_vertices_in(region, g.crs)]
+    if len(got) != len(want):
+        return False, f"project() returned {len(got)} coordinates for a region with {len(want)} vertices"
+    for (gx, gy), (wx, wy) in zip(got, want):
+        if abs(Fr(gx) - wx) > slack or abs(Fr(gy) - wy) > slack:
+            return False, f"project() put a vertex at ({gx}, {gy}) px, expected ({float(wx)}, {float(wy)}) px"
+    return True, ""
 
 
 def chk_region_enclosing(g, region):
@@ -409,8 +473,14 @@ def chk_region_enclosing(g, region):
     else:
         key = "enclosing-cross-crs-vertex-not-covered"
     ok2, what2 = chk_container_equivalence(g, region, r)
-    return [(key, ok, f"{what} (region {region!r}, result {r!r})" if not ok else ""),
-            ("enclosing-region-container-equivalence", ok2, what2)]
+    out = [(key, ok, f"{what} (region {region!r}, result {r!r})" if not ok else ""),
+           ("enclosing-region-container-equivalence", ok2, what2)]
+    from odc.geo.geom import BoundingBox
+
+    if not isinstance(region, BoundingBox):
+        ok3, what3 = chk_project_vertexwise(g, region)
+        out.append(("project-not-vertexwise", ok3, f"{what3} (region {region!r})" if not ok3 else ""))
+    return out
 
 
 def chk_snap(a, other, res, slack=Fr(0), tol=Fr(1e-8)):
@@ -997,9 +1067,11 @@ def run(R: Run):
         R.corr(f"c16 {op} [{enc_gbox(g1)}]", real(lambda: enc_gbox(fn([g1]))), sig=f"{op}|single")
 
     # ---------------------------------------------------------------- F. enclosing
-    def encl_case(g, pts, kind, tag, nm, exact=True):
+    def encl_case(g, pts, kind, tag, nm, exact=True, prebuilt=None):
         rc = crs_of(tag)
-        if kind == "bbox":
+        if prebuilt is not None:
+            region, verts = prebuilt
+        elif kind == "bbox":
             xs_, ys_ = [p_[0] for p_ in pts], [p_[1] for p_ in pts]
             region = BoundingBox(min(xs_), min(ys_), max(xs_), max(ys_), rc)
             verts = [(region.left, region.bottom), (region.left, region.top), (region.right, region.bottom),
@@ -1050,6 +1122,9 @@ def run(R: Run):
                        "enclosing-not-tight-cover-on-grid", case, sig="encl|" + kind)
                 oracle(chk_container_equivalence(g, region, res[0]), "enclosing-region-container-equivalence",
                        {"op": "encl-region", "g": gb_dict(g), "region": region_dict(region)}, sig="encl-equiv|" + kind)
+                if not isinstance(region, BoundingBox):
+                    oracle(chk_project_vertexwise(g, region), "project-not-vertexwise",
+                           {"op": "encl-region", "g": gb_dict(g), "region": region_dict(region)}, sig="project|" + kind.split(":")[0])
 
     kinds = ["bbox", "poly", "line", "mpoint", "point"]
     for it in range(R.pick(900, 9000)):
@@ -1072,6 +1147,40 @@ def run(R: Run):
             continue
         pts = [(float(x), float(y)) for x, y in pts]
         encl_case(g, pts, kind, "N" if it % 53 == 0 else "1", nm)
+
+    # invalid-but-meaningful regions (bow-tie, self-touching, duplicate vertices, wrong winding, holes touching the
+    # shell, overlapping multipolygon members ...) and unsorted random rings, same CRS: the model takes the vertex list
+    weird_names = sorted(WEIRD_REGIONS)
+    for it in range(R.pick(400, 4000)):
+        nm, B, ex = rng.choice(bases)
+        if not ex:
+            continue
+        g = member(B, rng.randint(-5, 5), rng.randint(-5, 5), rng.randint(1, 9), rng.randint(1, 9), "1")
+        FA_ = fa(g.affine)
+        if it % 4 == 3:   # random ring in the given (unsorted) order: usually self-crossing
+            n = rng.randint(4, 7)
+            pix = [(Fr(rng.randint(-48, 48), 4), Fr(rng.randint(-48, 48), 4)) for _ in range(n)]
+            wpts = [fa_apply(FA_, q) for q in pix]
+            if any(fa_exact_floats(q) is None for q in wpts) or len(set(pix)) < 3:
+                continue
+            wpts = [(float(x), float(y)) for x, y in wpts]
+            encl_case(g, wpts, "poly", "1", nm + "|random-ring")
+            continue
+        name = weird_names[(it // 4) % len(weird_names)]
+        x0, y0 = Fr(rng.randint(-40, 40), 4), Fr(rng.randint(-40, 40), 4)
+        W, H = rng.choice([1, 2, 8, 13]) * rng.choice([1, -1]), rng.choice([1, 3, 8]) * rng.choice([1, -1])
+        sk = rng.choice([0, 0, 1, -2])
+
+        def P(u, v):
+            q = fa_apply(FA_, (x0 + W * Fr(u) + sk * Fr(v), y0 + H * Fr(v)))
+            return (float(q[0]), float(q[1])) if fa_exact_floats(q) is not None else None
+
+        try:
+            region, verts = build_weird_region(name, P, crs_of("1"))
+        except Exception:  # a vertex is not a double
+            stats["inexact-skipped"] += 1
+            continue
+        encl_case(g, None, "weird:" + name, "1", nm, prebuilt=(region, verts))
 
     # pixel coordinates just off integers / half-integers (pure power-of-two scale, zero offset: every float
     # operation of wld2pix is exact, so a "snap almost-integers before floor/ceil" clean-up is visible)
@@ -1424,7 +1533,7 @@ def cross_crs_enclosing(R: Run):
             ("rot", lambda: Affine.rotation(rng.uniform(0, 360))), ("shear", lambda: Affine.shear(rng.choice([10, 25, -35]), 0)),
             ("rot-shear", lambda: Affine.rotation(rng.uniform(0, 360)) * Affine.shear(0, rng.choice([15, -20])))]
     ll = CRS("EPSG:4326")
-    for it in range(R.pick(260, 2600)):
+    for it in range(R.pick(330, 3300)):
         src, dst, lonr, latr = pairs[it % len(pairs)]
         src_crs, dst_crs = CRS(src), CRS(dst)
         lon, lat = rng.uniform(*lonr), rng.uniform(*latr)
@@ -1439,10 +1548,22 @@ def cross_crs_enclosing(R: Run):
             g = GeoBox((rng.randint(1, 500), rng.randint(1, 500)), A, dst_crs)
             # region around the centre, in the source CRS (a few px .. a few thousand px)
             ext = (rng.uniform(0.0005, 0.3) if src_crs.geographic else rng.uniform(50, 30000))
-            k = rng.choice(["bbox", "bbox", "poly", "mpoint", "line", "point"])
-            n = {"bbox": 2, "poly": rng.randint(3, 6), "mpoint": rng.randint(1, 5), "line": rng.randint(2, 4), "point": 1}[k]
+            k = rng.choice(["bbox", "bbox", "poly", "mpoint", "line", "point", "weird", "weird", "weird", "ring"])
+            n = {"bbox": 2, "poly": rng.randint(3, 6), "mpoint": rng.randint(1, 5), "line": rng.randint(2, 4), "point": 1,
+                 "weird": 0, "ring": rng.randint(4, 7)}[k]
             pts = [(c_src[0] + rng.uniform(-1, 1) * ext, c_src[1] + rng.uniform(-1, 1) * ext) for _ in range(n)]
-            if k == "bbox":
+            if k == "weird":   # invalid-but-meaningful polygons under a random linear map (either orientation)
+                name = rng.choice(sorted(WEIRD_REGIONS))
+                m_ = [rng.uniform(-1, 1) * ext for _ in range(4)]
+                if abs(m_[0] * m_[3] - m_[1] * m_[2]) < 0.05 * ext * ext:
+                    m_ = [ext, 0.0, 0.0, ext]
+                region, _v = build_weird_region(
+                    name, lambda u, v: (c_src[0] + m_[0] * (u - .5) + m_[1] * (v - .5), c_src[1] + m_[2] * (u - .5) + m_[3] * (v - .5)),
+                    src_crs)
+                k = "weird:" + name
+            elif k == "ring":  # random vertices joined in the given order: usually self-crossing
+                region = GM.polygon(pts + [pts[0]], src_crs)
+            elif k == "bbox":
                 xs_, ys_ = [q[0] for q in pts], [q[1] for q in pts]
                 region = BoundingBox(min(xs_), min(ys_), max(xs_), max(ys_), src_crs)
             elif k == "poly":
